@@ -123,7 +123,7 @@ class MCMCOperator(Identifiable, abc.ABC):
         optionals = {}
         optionals["disable_adaptation"] = data.get("disable_adaptation", False)
         optionals["acceptance_window_length"] = data.get(
-            "acceptance_window_length", False
+            "acceptance_window_length", 100
         )
         return id_, parameters, weight, target_acceptance_probability, optionals
 
